@@ -147,6 +147,17 @@ CLAIMED = {
    note="The per-client resolution (_client_claims) and scopes_to_claims are computed by the harness from the configuration it wrote; history "
         "independence is an oracle (aged vs fresh provider) here and a separation property in C20; invalid-token / audience clauses are C03/C04.",
    technique="Lean 4 proof (set-algebra upper bounds over association lists) + endpoint correspondence at the four release points", ref="6 C07"),
+ "C04": dict(
+   text="Lean theorems with NO assumption on the cipher/JWS layer (the handler layer is an arbitrary function `decode`): whatever an endpoint "
+        "honours is string-equal to a token this provider minted, of a class the slot accepts and still active (honoured_is_minted, from the "
+        "exact-value lookup); every string not equal to a minted value is refused in every slot (unminted_refused); with unique token values "
+        "the answering session is the minting one; the full slot x class separation table; genuine tokens of a wrong class refused. Tie: "
+        "worlds with many live sessions, byte-level and structural mutations of every genuine token (bit flips, truncation, extension, "
+        "alphabet change, JWT segment swaps, alg rewrites, payload edits, re-signing with foreign keys, session ids as tokens) offered in "
+        "every slot of every endpoint; oracle: honoured implies minted with accepted class; refused probes leave the state unchanged.",
+   note="DefaultToken.info / JWTToken.info / handler order sit at the interface (`decode`); 'expired signature' and 'foreign key' refusals are observed by "
+        "correspondence; accepting behaviour of the mutating slots is C02/C03.",
+   technique="Lean 4 proof (decision logic, crypto-independent) + mutation correspondence at every endpoint slot", ref="6 C04"),
 }
 NOT_YET = {}
 ALL = [f"C{i:02d}" for i in range(1, 21)]
